@@ -1,4 +1,4 @@
-package pnet
+package p2px
 
 import (
 	"math"
@@ -17,8 +17,8 @@ import (
 // the receiver does with the numbers, not whether the transaction is valid.
 
 const (
-	hostileV2Variants = 6
-	hostileV1Variants = 3
+	HostileV2Variants = 6
+	HostileV1Variants = 3
 )
 
 func hostileProof(n int) []types.Hash256 {
@@ -38,13 +38,13 @@ func hostileContract() types.V2FileContract {
 	}
 }
 
-// hostileV2Txn: proofLen is the length of the Merkle proofs of referenced
+// HostileV2Txn: proofLen is the length of the Merkle proofs of referenced
 // elements (63 keeps a multiproof encoding self-consistent; above 64 only fits
 // the plain encoding of a transaction set).
-func hostileV2Txn(variant, proofLen int) types.V2Transaction {
+func HostileV2Txn(variant, proofLen int) types.V2Transaction {
 	max := types.MaxCurrency
 	a := kit.Actors[0].Addr
-	switch ((variant % hostileV2Variants) + hostileV2Variants) % hostileV2Variants {
+	switch ((variant % HostileV2Variants) + HostileV2Variants) % HostileV2Variants {
 	case 0: // the fee alone overflows block reward + fees
 		return types.V2Transaction{MinerFee: max}
 	case 1: // every sum overflows
@@ -91,10 +91,10 @@ func hostileV2Txn(variant, proofLen int) types.V2Transaction {
 	}
 }
 
-func hostileV1Txn(variant int) types.Transaction {
+func HostileV1Txn(variant int) types.Transaction {
 	max := types.MaxCurrency
 	a := kit.Actors[0].Addr
-	switch ((variant % hostileV1Variants) + hostileV1Variants) % hostileV1Variants {
+	switch ((variant % HostileV1Variants) + HostileV1Variants) % HostileV1Variants {
 	case 0:
 		return types.Transaction{MinerFees: []types.Currency{max}}
 	case 1: // the fees overflow among themselves
@@ -110,17 +110,17 @@ func hostileV1Txn(variant int) types.Transaction {
 	}
 }
 
-// hostileTime: timestamps at the ends of the wire range.
-func hostileTime(variant int) time.Time {
+// HostileTime: timestamps at the ends of the wire range.
+func HostileTime(variant int) time.Time {
 	if variant%2 == 0 {
 		return time.Unix(math.MaxInt64, 0)
 	}
 	return time.Unix(-1, 0) // 0xffff…ff on the wire
 }
 
-// grindOutline sets the outline's nonce so that its id (over the parent state
+// GrindOutline sets the outline's nonce so that its id (over the parent state
 // pst) meets pst's target.
-func grindOutline(pst consensus.State, o *gateway.V2BlockOutline) bool {
+func GrindOutline(pst consensus.State, o *gateway.V2BlockOutline) bool {
 	f := pst.NonceFactor()
 	o.Nonce = 0
 	for i := 0; i < 1<<22; i++ {
@@ -132,7 +132,7 @@ func grindOutline(pst consensus.State, o *gateway.V2BlockOutline) bool {
 	return false
 }
 
-func grindHeader(pst consensus.State, h *types.BlockHeader) bool {
+func GrindHeader(pst consensus.State, h *types.BlockHeader) bool {
 	f := pst.NonceFactor()
 	h.Nonce = 0
 	for i := 0; i < 1<<22; i++ {
@@ -144,34 +144,34 @@ func grindHeader(pst consensus.State, h *types.BlockHeader) bool {
 	return false
 }
 
-// hostileOutline builds the outline of a child of the block whose state is
+// HostileOutline builds the outline of a child of the block whose state is
 // pst: kind "hostile-embedded" (the transaction travels inside), "hostile-missing"
 // (only its hash does; v1 / v2 are what the sender has to serve when asked) or
 // "hostile-field" (extreme height / timestamp).
-func hostileOutline(pst consensus.State, parentTime time.Time, kind string, arg int) (o gateway.V2BlockOutline, v1 []types.Transaction, v2 []types.V2Transaction, ok bool) {
+func HostileOutline(pst consensus.State, parentTime time.Time, kind string, arg int) (o gateway.V2BlockOutline, v1 []types.Transaction, v2 []types.V2Transaction, ok bool) {
 	o = gateway.V2BlockOutline{Height: pst.Index.Height + 1, ParentID: pst.Index.ID, Timestamp: parentTime.Add(time.Second), MinerAddress: kit.Actors[0].Addr}
 	if arg < 0 {
 		arg = -arg
 	}
 	switch kind {
 	case "hostile-embedded":
-		if k := arg % (hostileV2Variants + hostileV1Variants); k < hostileV2Variants {
-			txn := hostileV2Txn(k, 63)
+		if k := arg % (HostileV2Variants + HostileV1Variants); k < HostileV2Variants {
+			txn := HostileV2Txn(k, 63)
 			o.Transactions = []gateway.OutlineTransaction{{Hash: txn.MerkleLeafHash(), V2Transaction: &txn}}
 		} else {
-			txn := hostileV1Txn(k - hostileV2Variants)
+			txn := HostileV1Txn(k - HostileV2Variants)
 			o.Transactions = []gateway.OutlineTransaction{{Hash: txn.MerkleLeafHash(), Transaction: &txn}}
 		}
 	case "hostile-missing":
 		switch arg % 4 {
 		case 0:
-			v2 = []types.V2Transaction{hostileV2Txn(0, 63)}
+			v2 = []types.V2Transaction{HostileV2Txn(0, 63)}
 		case 1:
-			v1 = []types.Transaction{hostileV1Txn(1)}
+			v1 = []types.Transaction{HostileV1Txn(1)}
 		case 2:
-			v2 = []types.V2Transaction{hostileV2Txn(3, 70)}
+			v2 = []types.V2Transaction{HostileV2Txn(3, 70)}
 		default:
-			v2 = []types.V2Transaction{hostileV2Txn(4, 70), hostileV2Txn(1, 63)}
+			v2 = []types.V2Transaction{HostileV2Txn(4, 70), HostileV2Txn(1, 63)}
 		}
 		for _, t := range v1 {
 			o.Transactions = append(o.Transactions, gateway.OutlineTransaction{Hash: t.MerkleLeafHash()})
@@ -180,13 +180,18 @@ func hostileOutline(pst consensus.State, parentTime time.Time, kind string, arg 
 			o.Transactions = append(o.Transactions, gateway.OutlineTransaction{Hash: t.MerkleLeafHash()})
 		}
 	case "hostile-field":
-		switch arg % 5 {
+		switch arg % 6 {
+		case 5:
+			// more missing transactions than a SendTransactions request may name
+			for i := 0; i < 150; i++ {
+				o.Transactions = append(o.Transactions, gateway.OutlineTransaction{Hash: types.Hash256{0xcc, byte(i)}})
+			}
 		case 0:
 			o.Height = math.MaxUint64
 		case 1:
 			o.Height = 0
 		case 2, 3:
-			o.Timestamp = hostileTime(arg % 5)
+			o.Timestamp = HostileTime(arg % 6)
 		default:
 			// the extreme height travels on in the victim's own SendTransactions request
 			o.Height = math.MaxUint64
@@ -195,5 +200,29 @@ func hostileOutline(pst consensus.State, parentTime time.Time, kind string, arg 
 	default:
 		return o, nil, nil, false
 	}
-	return o, v1, v2, grindOutline(pst, &o)
+	return o, v1, v2, GrindOutline(pst, &o)
+}
+
+// HostileRequest is a request of the given variant with extreme numbers, to be
+// sent to a node whose tip is tip (genesis: the id of the genesis block).
+func HostileRequest(variant int, tip types.ChainIndex, genesis types.BlockID) gateway.Object {
+	switch ((variant % 6) + 6) % 6 {
+	case 0: // a block the node has, under an extreme height, as many headers as can be named
+		return &gateway.RPCSendHeaders{Index: types.ChainIndex{Height: math.MaxUint64, ID: tip.ID}, Max: math.MaxUint64}
+	case 1:
+		return &gateway.RPCSendHeaders{Index: types.ChainIndex{Height: 0, ID: genesis}, Max: math.MaxUint64}
+	case 2: // a long history of unknown ids, then genesis; every block there is
+		h := make([]types.BlockID, 0, 33)
+		for i := 0; i < 31; i++ {
+			h = append(h, types.BlockID{0xdd, byte(i)})
+		}
+		return &gateway.RPCSendV2Blocks{History: append(h, genesis), Max: math.MaxUint64}
+	case 3:
+		return &gateway.RPCSendV2Blocks{History: nil, Max: 0}
+	case 4:
+		return &gateway.RPCSendCheckpoint{Index: types.ChainIndex{Height: math.MaxUint64, ID: types.BlockID{0xee}}}
+	default: // the same hash a hundred times, of a block under a wrong height
+		hs := make([]types.Hash256, 100)
+		return &gateway.RPCSendTransactions{Index: types.ChainIndex{Height: math.MaxUint64, ID: tip.ID}, Hashes: hs}
+	}
 }
